@@ -13,6 +13,9 @@ RESL = ["thread", "thread", "async-thread", "main-thread"]
 
 
 # ------------------------------------------------------------------------------ program generation
+PYC = {"i1": 1, "bT": True, "f1": 1.0, "i0": 0, "bF": False, "f0": 0.0}
+
+
 def dk(key):
     """a key of a stored program as the Python object: JSON lists stand for tuple keys"""
     return tuple(key) if isinstance(key, list) else key
@@ -33,6 +36,9 @@ def gen_expr(rng, nvars, vinfo, nparams, allow_const=True):
         return var_ref(rng, i, vinfo)
     if k == "param":
         return ["param", rng.randrange(nparams)]
+    if rng.random() < 0.2:
+        # plain Python constants that are EQUAL but not the same value: 1, True, 1.0 / 0, False, 0.0
+        return ["pyc", random.Random(rng.getrandbits(30)).choice(["i1", "bT", "f1", "i0", "bF", "f0"])]
     return ["const", rng.randrange(50), rng.random() < 0.6]
 
 
@@ -111,7 +117,7 @@ def gen_prog(rng, name="p", depth=0, max_stmts=8, fid_base=0, p_flag=0.2, p_sub=
             elif sc < 0.6:
                 sub["qualname"] = "scope%d.<locals>.prep" % len(subs)
                 sub["pyname"] = "prep"
-            if sub["ret"]["shape"] == "none" or any(it[0] in ("const", "bool", "strc") for it in ret_items(sub["ret"])) or not sub["stmts"]:
+            if sub["ret"]["shape"] == "none" or any(it[0] in ("const", "bool", "strc", "pyc") for it in ret_items(sub["ret"])) or not sub["stmts"]:
                 sub["ret"] = dict(shape="single", items=[first_var(sub)])
             subs.append(sub)
             nsp = len(sub["params"])
@@ -301,6 +307,8 @@ def body(prog, F, S, L, recorder=None, override=None):
             return None
         if e[0] == "strc":
             return e[1]
+        if e[0] == "pyc":
+            return PYC[e[1]]
         return bool(e[1])
 
     def run(*params):
